@@ -1,12 +1,278 @@
 import IpaVerif.Model.Util
-/-! Line-protocol handlers for property C17 (model side). Import-free. -/
+import IpaVerif.Model.Streams
+import IpaVerif.Generated.StreamConsts
+/-! Line-protocol handlers for property C17 (model side). Import-free.
+
+Upstream chunk lists: comma-separated, `-` = empty chunk, `!` = upstream error, `.` = no item at all.
+
+  c17.records <single|batch> <ty> <chunks>   ty: r1..r8 (record of N bytes, invalid iff first byte = ff),
+                                              fp31 (1 byte, invalid iff ≥ 31), fp32 (4 bytes LE, invalid iff ≥ 2^32-5)
+  c17.ld <chunks>                             length-delimited records (invalid iff first byte = ff)
+  c17.buffered <sz> <chunks>
+  c17.slice <N> <n>       c17.streamchunks <N> <items>      c17.unpack <N> <M> <F|P<len>> <datalen>
+  c17.flatten <lists>     c17.fixed <len> <n>
+-/
 namespace IpaVerif.Driver.C17
-open IpaVerif.Util
+open IpaVerif.Util IpaVerif.Streams
 
-/-- `some response` if the request belongs to this property, else `none`. -/
-def handle (_toks : List String) : Option String := none
+def parseUp (s : String) : Option (List Up) :=
+  if s = "." then some [] else
+  (s.splitOn ",").mapM fun t =>
+    if t = "!" then some Up.err else (parseHexBytes t).map Up.chunk
 
-/-- Property oracle on (request, implementation response): `some "holds"`, `some "fails <why>"`, or `none`. -/
-def oracle (_toks : List String) (_impl : String) : Option String := none
+structure RecTy where
+  sz : Nat
+  bad : Bytes → Bool
+
+def recTy (s : String) : Option RecTy :=
+  if s = "fp31" then some ⟨1, fun b => b.getD 0 0 ≥ IpaVerif.Generated.c17Fp31Prime⟩
+  else if s = "fp32" then some ⟨4, fun b => ofLeBytes b ≥ IpaVerif.Generated.c17Fp32Prime⟩
+  else match s.toList with
+    | ['r', d] => (hexDigit d).bind fun n => if 1 ≤ n ∧ n ≤ 8 then some ⟨n, fun b => b.getD 0 0 == 255⟩ else none
+    | _ => none
+
+def plusHex (l : List Bytes) : String := "[" ++ String.intercalate "+" (l.map bytesHex) ++ "]"
+
+/-- apply the record type to the raw items: stop with `E:parse` at the first invalid record
+(a batch containing an invalid record is lost as a whole). -/
+def render (bad : Bytes → Bool) : List Item → List String
+  | [] => []
+  | .record b :: rest => if bad b then ["E:parse"] else bytesHex b :: render bad rest
+  | .batch l :: rest => if l.any bad then ["E:parse"] else plusHex l :: render bad rest
+  | .errTrailing n :: _ => [s!"E:trailing:{n}"]
+  | .errUpstream :: _ => ["E:upstream"]
+  | .done :: _ => ["end"]
+  | .panic :: _ => ["panic"]
+
+def join (l : List String) : String := String.intercalate " " l
+
+def ctStr : ChunkType → String
+  | .full => "F"
+  | .part n => s!"P{n}"
+
+def parseCt (s : String) : Option ChunkType :=
+  if s = "F" then some .full
+  else match s.toList with
+    | 'P' :: r => (String.ofList r).toNat?.map .part
+    | _ => none
+
+def plusNat (l : List Nat) : String := if l.isEmpty then "-" else String.intercalate "+" (l.map toString)
+
+def parsePlus (s : String) : Option (List Nat) :=
+  if s = "-" then some [] else (s.splitOn "+").mapM String.toNat?
+
+def chunkStr : Nat × ChunkType × List Nat → String
+  | (i, ct, d) => s!"{i}:{ctStr ct}:{plusNat d}"
+
+def handle (toks : List String) : Option String :=
+  match toks with
+  | ["c17.records", mode, ty, chunks] => some <| Id.run do
+      let some t := recTy ty | return "bad-request"
+      let some up := parseUp chunks | return "bad-request"
+      let batch := mode == "batch"
+      return join (render t.bad (records batch t.sz up))
+  | ["c17.ld", chunks] => some <| Id.run do
+      let some up := parseUp chunks | return "bad-request"
+      return join (render (fun b => b.getD 0 0 == 255) (lengthDelimited up))
+  | ["c17.buffered", sz, chunks] => some <| Id.run do
+      let some sz := sz.toNat? | return "bad-request"
+      let some up := parseUp chunks | return "bad-request"
+      return join (render (fun _ => false) (buffered sz up))
+  | ["c17.slice", n, len] => some <| Id.run do
+      let some n := n.toNat? | return "bad-request"
+      let some len := len.toNat? | return "bad-request"
+      let l := (List.range len).map (· + 1)
+      let cs := sliceChunks n 0 l
+      let flat := cs.flatMap fun (_, ct, d) => chunkIter n (ct, d)
+      return join (cs.map chunkStr ++ ["|", "flat=" ++ plusNat flat])
+  | ["c17.streamchunks", n, items] => some <| Id.run do
+      let some n := n.toNat? | return "bad-request"
+      let its : Option (List (TItem Nat)) :=
+        if items = "." then some [] else
+        (items.splitOn ",").mapM fun t => if t = "!" then some TItem.err else t.toNat?.map TItem.ok
+      let some its := its | return "bad-request"
+      return join ((streamChunks n 0 its).map fun
+        | .ok c => chunkStr c
+        | .err => "E")
+  | ["c17.unpack", n, m, ct, dl] => some <| Id.run do
+      let some n := n.toNat? | return "bad-request"
+      let some m := m.toNat? | return "bad-request"
+      let some ct := parseCt ct | return "bad-request"
+      let some dl := dl.toNat? | return "bad-request"
+      match unpack n m ct (List.range dl) with
+      | .panic => return "panic"
+      | .ok l => return join ("ok" :: l.map fun (c, x) => s!"{ctStr c}:{x}")
+  | ["c17.flatten", lists] => some <| Id.run do
+      let its : Option (List (TItem (List Nat))) :=
+        if lists = "." then some [] else
+        (lists.splitOn ",").mapM fun t => if t = "!" then some TItem.err else (parsePlus t).map TItem.ok
+      let some its := its | return "bad-request"
+      return join ((tryFlatten its).map (fun | .ok x => toString x | .err => "E") ++ ["end"])
+  | ["c17.fixed", len, n] => some <| Id.run do
+      let some len := len.toNat? | return "bad-request"
+      let some n := n.toNat? | return "bad-request"
+      let (items, bad) := fixedLength len (List.range n)
+      if bad then return "panic" else return s!"ok {items.length}"
+  | t :: _ => if t.startsWith "c17." then some "bad-request" else none
+  | [] => none
+
+/-! ## Spec-side oracle: written from the statement of C17 (concatenate, cut, compare). -/
+
+def concatBefore : List Up → Bytes × Bool
+  | [] => ([], false)
+  | .err :: _ => ([], true)
+  | .chunk c :: r => let (b, e) := concatBefore r; (c ++ b, e)
+
+/-- cut into records of `sz` bytes; the remainder is returned separately. -/
+def cut (sz : Nat) (fuel : Nat) (bs : Bytes) : List Bytes × Bytes :=
+  match fuel with
+  | 0 => ([], bs)
+  | f + 1 => if sz = 0 ∨ bs.length < sz then ([], bs) else
+      let (r, rem) := cut sz f (bs.drop sz); (bs.take sz :: r, rem)
+
+/-- decode `u16 LE length ‖ payload` records; the undecodable tail is returned separately. -/
+def decodeLd (fuel : Nat) (bs : Bytes) : List Bytes × Bytes :=
+  match fuel with
+  | 0 => ([], bs)
+  | f + 1 =>
+    match bs with
+    | a :: b :: rest =>
+      let len := a + 256 * b
+      if rest.length < len then ([], bs) else
+      let (r, rem) := decodeLd f (rest.drop len); (rest.take len :: r, rem)
+    | _ => ([], bs)
+
+def parseBracket (t : String) : Option (List Bytes) :=
+  if t.startsWith "[" ∧ t.endsWith "]" then
+    let inner := ((t.drop 1).dropEnd 1).toString
+    (inner.splitOn "+").mapM parseHexBytes
+  else none
+
+/-- flatten the implementation's data tokens; returns (records, batch sizes ok, terminal token). -/
+def flattenImpl (toks : List String) : Option (List Bytes × Bool × String) :=
+  match toks.reverse with
+  | [] => none
+  | term :: revData => do
+    let mut recs : List Bytes := []
+    let mut okSizes := true
+    for t in revData.reverse do
+      if t.startsWith "[" then
+        let l ← parseBracket t
+        if l.isEmpty then okSizes := false
+        recs := recs ++ l
+      else
+        recs := recs ++ [← parseHexBytes t]
+    pure (recs, okSizes, term)
+
+def judge (what : String) (recs : List Bytes) (bad : Bytes → Bool) (single : Bool) (hasErr : Bool)
+    (remLen : Nat) (impl : String) : String :=
+  match flattenImpl (impl.splitOn " ") with
+  | none => s!"fails {what}: unparsable response"
+  | some (got, okSizes, term) =>
+    if !okSizes then s!"fails {what}: empty batch emitted" else
+    let firstBad := recs.findIdx? bad
+    match firstBad with
+    | some k =>
+      if term != "E:parse" then s!"fails {what}: record {k} is invalid but the stream answered {term}"
+      else if got != recs.take got.length then s!"fails {what}: emitted records are not a prefix of the encoded records"
+      else if got.length > k then s!"fails {what}: records after the invalid record {k} were emitted"
+      else if single && got.length != k then s!"fails {what}: error reported at record {got.length}, the invalid record is {k}"
+      else "holds"
+    | none =>
+      if got != recs then
+        s!"fails {what}: emitted {got.length} records, the bytes encode {recs.length} (lost, duplicated, reordered or altered)"
+      else if hasErr then (if term == "E:upstream" then "holds" else s!"fails {what}: upstream error answered {term}")
+      else if remLen != 0 then
+        (if term.startsWith "E:trailing" then "holds" else s!"fails {what}: {remLen} trailing bytes answered {term}")
+      else if term == "end" then "holds" else s!"fails {what}: clean end of stream answered {term}"
+
+def oracle (toks : List String) (impl : String) : Option String :=
+  if impl.startsWith "panic" ∧ (toks.head? ∈ [some "c17.records", some "c17.ld", some "c17.buffered",
+      some "c17.slice", some "c17.streamchunks", some "c17.flatten"]) then
+    some "fails parser panicked"
+  else
+  match toks with
+  | ["c17.records", mode, ty, chunks] => some <| Id.run do
+      let some t := recTy ty | return "unknown"
+      let some up := parseUp chunks | return "unknown"
+      let (bytes, hasErr) := concatBefore up
+      let (recs, rem) := cut t.sz (bytes.length + 1) bytes
+      return judge "records" recs t.bad (mode == "single") hasErr rem.length impl
+  | ["c17.ld", chunks] => some <| Id.run do
+      let some up := parseUp chunks | return "unknown"
+      let (bytes, hasErr) := concatBefore up
+      let (recs, rem) := decodeLd (bytes.length + 1) bytes
+      return judge "length-delimited" recs (fun b => b.getD 0 0 == 255) false hasErr rem.length impl
+  | ["c17.buffered", sz, chunks] => some <| Id.run do
+      let some sz := sz.toNat? | return "unknown"
+      let some up := parseUp chunks | return "unknown"
+      let (bytes, hasErr) := concatBefore up
+      let some (got, _, term) := flattenImpl (impl.splitOn " ") | return "fails buffered: unparsable response"
+      -- an upstream error is passed on as soon as it is seen: only whole items precede it
+      let want := if hasErr then bytes.take (bytes.length / sz * sz) else bytes
+      if got.flatten != want then return "fails buffered: concatenated output differs from concatenated input"
+      if !((if hasErr then got else got.dropLast).all (·.length == sz)) then return s!"fails buffered: an item other than the last is not {sz} bytes"
+      if !(got.all (fun g => 0 < g.length ∧ g.length ≤ sz)) then return "fails buffered: empty or oversized item"
+      if term != (if hasErr then "E:upstream" else "end") then return s!"fails buffered: terminal {term}"
+      return "holds"
+  | ["c17.slice", n, len] => some <| Id.run do
+      let some n := n.toNat? | return "unknown"
+      let some len := len.toNat? | return "unknown"
+      let parts := impl.splitOn "| flat="
+      let some flat := (parts.getD 1 "?") |> parsePlus | return "fails slice: unparsable"
+      let cs := (parts.getD 0 "").splitOn " " |>.filter (· ≠ "")
+      if flat != (List.range len).map (· + 1) then return "fails slice: flattened chunks differ from the input"
+      if cs.length != (len + n - 1) / n then return s!"fails slice: {cs.length} chunks for {len} items of width {n}"
+      let okShape := (List.range cs.length).all fun i =>
+        let want := if i + 1 == cs.length ∧ len % n ≠ 0 then s!"{i}:P{len % n}:" else s!"{i}:F:"
+        let c := cs.getD i ""
+        c.startsWith want && ((((c.splitOn ":").getD 2 "").splitOn "+").length == n)
+      if !okShape then return "fails slice: wrong chunk index/type/width"
+      return "holds"
+  | ["c17.flatten", lists] => some <| Id.run do
+      let its := if lists = "." then [] else lists.splitOn ","
+      let before := its.takeWhile (· ≠ "!")
+      let want := (before.filterMap parsePlus).flatten.map toString ++ (if before.length < its.length then ["E"] else []) ++ ["end"]
+      return if impl.splitOn " " == want then "holds" else "fails flatten: not the concatenation up to the first error"
+  | ["c17.streamchunks", n, items] => some <| Id.run do
+      let some n := n.toNat? | return "unknown"
+      let its := if items = "." then [] else items.splitOn ","
+      let before := (its.takeWhile (· ≠ "!")).filterMap String.toNat?
+      let hasErr := before.length < its.length
+      let toks := impl.splitOn " " |>.filter (· ≠ "")
+      let data := toks.filter (· ≠ "E")
+      let flat := data.flatMap fun c =>
+        let f := c.splitOn ":"
+        let d := (parsePlus (f.getD 2 "-")).getD []
+        match parseCt (f.getD 1 "F") with
+        | some (.part k) => d.take k
+        | _ => d
+      if hasErr then
+        if toks.getLast? != some "E" then return "fails streamchunks: upstream error not passed on"
+        if flat != before.take flat.length ∨ flat.length != before.length / n * n then
+          return "fails streamchunks: chunks before the error are not the full chunks of the input"
+        return "holds"
+      else
+        if flat != before then return "fails streamchunks: flattened chunks differ from the input"
+        if data.length != (before.length + n - 1) / n then return "fails streamchunks: wrong number of chunks"
+        return "holds"
+  | ["c17.unpack", n, m, ct, dl] => some <| Id.run do
+      let some n := n.toNat? | return "unknown"
+      let some m := m.toNat? | return "unknown"
+      let some ct := parseCt ct | return "unknown"
+      let some dl := dl.toNat? | return "unknown"
+      if m = 0 ∨ n % m ≠ 0 then return (if impl.startsWith "panic" then "holds" else "unknown")
+      let len := match ct with | .part l => l | .full => n
+      let pre := match ct with | .part l => (l + m - 1) / m ≤ dl ∧ dl ≤ n / m | .full => dl = n / m
+      if !pre then return (if impl.startsWith "panic" then "holds" else "fails unpack: precondition violated silently")
+      if impl.startsWith "panic" then return "fails unpack: panicked under its documented precondition"
+      let subs := (impl.splitOn " ").drop 1
+      let lens := subs.map fun s => match parseCt ((s.splitOn ":").getD 0 "") with
+        | some (.part k) => k | _ => m
+      if lens.foldl (· + ·) 0 != len then return "fails unpack: sub-chunk lengths do not add up"
+      if subs.length != (len + m - 1) / m then return "fails unpack: wrong number of sub-chunks"
+      return "holds"
+  | ["c17.fixed", _, _] => some "unknown"
+  | _ => none
 
 end IpaVerif.Driver.C17
